@@ -24,6 +24,8 @@ import (
 	"github.com/tsawler/tabula/text"
 	"pgregory.net/rapid"
 
+	"verif/harness/gen/frag"
+	"verif/harness/gen/fragpdf"
 	"verif/harness/gen/pdfw"
 	"verif/harness/iso"
 	"verif/harness/vr"
@@ -32,7 +34,7 @@ import (
 // ---------------------------------------------------------------------------
 // documents, addressed by a small integer so that a case is replayable
 
-const nDocs = 24
+const nDocs = 36
 
 type docSpec struct {
 	kind string // pdf | html | file
@@ -68,6 +70,41 @@ func getDoc(i int) *docSpec {
 	}
 	var d *docSpec
 	switch {
+	case i >= 32:
+		// twins: identical structure and object numbering, same /BaseFont, different /Encoding (32,33) resp.
+		// different /ToUnicode (34,35), text on codes the encodings disagree on - anything cached across
+		// documents by object number or font name shows
+		kind := []string{"t1win", "t1mac", "tu1", "tu1"}[i-32]
+		f := pdfw.FontSpec{Res: "F1", Kind: kind, Base: "Helvetica"}
+		if kind == "tu1" {
+			tgt := []string{"x", "y"}[i-34]
+			for c := 0x41; c <= 0x5A; c++ {
+				f.Map = append(f.Map, pdfw.MapEnt{Code: c, Text: tgt + string(rune(c+0x20))})
+			}
+			f.Map = append(f.Map, pdfw.MapEnt{Code: 0x8E, Text: tgt + "#"})
+		}
+		doc := pdfw.Doc{Fonts: []pdfw.FontSpec{f}}
+		for pg := 1; pg <= 2; pg++ {
+			page := pdfw.Page{ID: pg, MediaBox: [4]float64{0, 0, 612, 792}}
+			for k := 0; k < 4; k++ {
+				b := []byte{'C', 'A', 'F', 0x8E, byte('A' + k), 0x80 + byte(k), 0xD5}
+				page.Lines = append(page.Lines, pdfw.Line{Font: 0, Size: 12, X: 72, Y: float64(700 - 40*k), Bytes: b, Text: "(not compared)"})
+			}
+			doc.Pages = append(doc.Pages, page)
+		}
+		d = &docSpec{kind: "pdf", ext: ".pdf", data: pdfw.Write([]pdfw.Doc{doc}, pdfw.Layout{}).Bytes}
+	case i >= 24:
+		// synthetic layouts (columns, headings, lists, raised footnote marks, character-level text, …): many
+		// more decisions inside layout analysis than the simple pages of the random PDFs
+		data := rapid.Custom(func(t *rapid.T) []byte {
+			for {
+				pgs := []frag.Page{frag.GenPage(t, frag.Opts{}), frag.GenPage(t, frag.Opts{Light: true, TokenBase: 5000})}
+				if b, err := fragpdf.Lower(pgs); err == nil {
+					return b
+				}
+			}
+		}).Example(2000 + i)
+		d = &docSpec{kind: "pdf", ext: ".pdf", data: data}
 	case i%4 == 3:
 		d = &docSpec{kind: "html", ext: ".html", data: htmlDoc(i)}
 	case i%4 == 2:
@@ -248,6 +285,24 @@ func poison(what string) {
 			defer func() { recover() }() // a crash here belongs to C02, not to this property
 			contentstream.NewParser([]byte("/P << /MCID 1 ")).Parse()
 		}()
+	case "open-string":
+		contentstream.NewParser([]byte("BT /F1 12 Tf 72 700 Td (CONFIDENTIAL dra")).Parse()
+		text.NewExtractor().ExtractFromBytes([]byte("BT /F1 12 Tf (left \\(over"))
+	case "bad-hex":
+		contentstream.NewParser([]byte("BT /F1 12 Tf <414243zz4445> Tj ET")).Parse()
+		contentstream.NewParser([]byte("BT <4142")).Parse()
+	case "damaged-content-pdf":
+		// a whole file whose page content ends inside a literal string: the failure runs through the full pipeline
+		d := pdfw.Doc{Fonts: []pdfw.FontSpec{{Res: "F1", Kind: "t1win", Base: "Helvetica"}},
+			Pages: []pdfw.Page{{ID: 1, MediaBox: [4]float64{0, 0, 612, 792}, Lines: []pdfw.Line{{Font: 0, Size: 12, X: 72, Y: 700, Bytes: []byte("SECRET"), Text: "SECRET"}}}}}
+		b := pdfw.Write([]pdfw.Doc{d}, pdfw.Layout{}).Bytes
+		b = bytes.Replace(b, []byte("(SECRET) Tj ET"), []byte("(SECRET  Tj ET"), 1) // same length: the xref stays valid
+		p := filepath.Join(os.TempDir(), fmt.Sprintf("verif-c03-damaged-%d.pdf", os.Getpid()))
+		os.WriteFile(p, b, 0o644)
+		tabula.Open(p).Text()
+		tabula.Open(p).ToMarkdown()
+		tabula.Open(p).Fragments()
+		os.Remove(p)
 	case "missing-file":
 		tabula.Open(filepath.Join(os.TempDir(), "verif-c03-does-not-exist.pdf")).Text()
 	case "garbage-pdf":
@@ -351,7 +406,7 @@ func genCase(t *rapid.T) Case {
 		case "extract":
 			c.Steps = append(c.Steps, Step{Kind: "extract", Doc: rapid.IntRange(0, nDocs-1).Draw(t, "doc"), Op: rapid.SampledFrom(ops).Draw(t, "op")})
 		case "poison":
-			c.Steps = append(c.Steps, Step{Kind: "poison", What: rapid.SampledFrom([]string{"operands-only", "operands-only", "open-array", "open-dict", "missing-file", "garbage-pdf", "bad-html"}).Draw(t, "what")})
+			c.Steps = append(c.Steps, Step{Kind: "poison", What: rapid.SampledFrom([]string{"operands-only", "operands-only", "open-array", "open-dict", "open-string", "open-string", "bad-hex", "damaged-content-pdf", "missing-file", "garbage-pdf", "bad-html"}).Draw(t, "what")})
 		case "burst":
 			k := rapid.IntRange(2, 8).Draw(t, "k")
 			first := rapid.IntRange(0, nDocs-1).Draw(t, "first")
@@ -362,7 +417,7 @@ func genCase(t *rapid.T) Case {
 			}
 			c.Steps = append(c.Steps, Step{Kind: "burst", Docs: ds, G: rapid.IntRange(2, 16).Draw(t, "g"), Op: rapid.SampledFrom(ops).Draw(t, "op")})
 		case "repeat":
-			c.Steps = append(c.Steps, Step{Kind: "repeat", Doc: rapid.IntRange(0, nDocs-1).Draw(t, "doc"), Op: rapid.SampledFrom(ops).Draw(t, "op"), N: rapid.IntRange(2, 20).Draw(t, "n")})
+			c.Steps = append(c.Steps, Step{Kind: "repeat", Doc: rapid.IntRange(0, nDocs-1).Draw(t, "doc"), Op: rapid.SampledFrom(ops).Draw(t, "op"), N: rapid.IntRange(2, 30).Draw(t, "n")})
 		}
 	}
 	return c
